@@ -15,16 +15,31 @@ from ..steplib import Inst, micro_summary
 
 ID = 'C03'
 ALL = [cg.BASIC, cg.COMPOUND, cg.ORTH, cg.FINAL, cg.SH, cg.DH]
+B, C, O, F, S, D = cg.BASIC, cg.COMPOUND, cg.ORTH, cg.FINAL, cg.SH, cg.DH
+TEMPLATES = {
+    # root||{R1{X, Q||{q1,q2}}, R2}: a transition into a region of a not yet active orthogonal state
+    'TA': {'N': 7, 'par': [-1, 0, 1, 1, 3, 3, 0], 'kind': [O, C, B, O, B, B, B]},
+    # root||{R1{X, P{A,H}}, R2}: a transition to a history state next to a parallel transition
+    'TB': {'N': 7, 'par': [-1, 0, 1, 1, 3, 3, 0], 'kind': [O, C, B, C, B, S, B]},
+    # root{A, P||{R1{a1,a2}, R2{b1,b2}}}: nested exits of orthogonal content
+    'TC': {'N': 9, 'par': [-1, 0, 0, 2, 3, 3, 2, 6, 6], 'kind': [C, B, O, C, B, B, C, B, B]},
+}
 LEVELS = {
     'quick': [
         {'name': 'L1-N3-M2-K2', 'N': 3, 'M': 2, 'K': 2, 'namings': ['rev'], 'send': 1, 'budget_s': 60},
-        {'name': 'L2-N4-M1-K2', 'N': 4, 'M': 1, 'K': 2, 'namings': ['mix'], 'send': 1, 'budget_s': 90},
+        {'name': 'L2-N4-M1-K2', 'N': 4, 'M': 1, 'K': 2, 'namings': ['mix'], 'send': 2, 'budget_s': 90},
         {'name': 'L3-N4-M2-K1', 'N': 4, 'M': 2, 'K': 1, 'namings': ['id'], 'send': 0, 'budget_s': 150},
+        {'name': 'L4-TATB-M2-K1', 'templates': ['TA', 'TB'], 'M': 2, 'K': 1, 'nevents': 1, 'namings': ['rev'],
+         'send': 2, 'budget_s': 90},
     ],
     'thorough': [
         {'name': 'L1-N3-M3-K2', 'N': 3, 'M': 3, 'K': 2, 'namings': ['id', 'rev', 'mix'], 'send': 1, 'budget_s': 400},
         {'name': 'L2-N4-M2-K2', 'N': 4, 'M': 2, 'K': 2, 'namings': ['id', 'rev', 'mix'], 'send': 1, 'budget_s': 1500},
-        {'name': 'L3-N5-M2-K1', 'N': 5, 'M': 2, 'K': 1, 'namings': ['rev', 'mix'], 'send': 0, 'budget_s': 1500},
+        {'name': 'L3-N5-M2-K1', 'N': 5, 'M': 2, 'K': 1, 'namings': ['rev', 'mix'], 'send': 2, 'budget_s': 1500},
+        {'name': 'L4-TATBTC-M2-K2', 'templates': ['TA', 'TB', 'TC'], 'M': 2, 'K': 2, 'nevents': 2,
+         'namings': ['id', 'rev'], 'send': 2, 'budget_s': 1500},
+        {'name': 'L5-TATB-M3-K1', 'templates': ['TA', 'TB'], 'M': 3, 'K': 1, 'nevents': 1,
+         'namings': ['mix'], 'send': 1, 'budget_s': 1500},
     ],
 }
 WITNESSES = ['two_transitions_in_one_step', 'orthogonal_siblings_exited', 'orthogonal_siblings_entered',
@@ -37,6 +52,12 @@ OUTSIDE = ['charts above the N/M/K bound of the completed level', 'what memory a
 
 
 def shards(level):
+    if 'templates' in level:
+        out = []
+        for name in level['templates']:
+            out.extend(dict(sh, template=name) for sh in
+                       cg.split_shards([dict(TEMPLATES[name])], level['M'], nevents=level.get('nevents', 2)))
+        return out
     return cg.split_shards(cg.skeletons(level['N'], ALL), level['M'])
 
 
@@ -44,7 +65,8 @@ def expand(job, level):
     if 'chart' in job:
         yield job['chart']
         return
-    yield from cg.charts(job['skel'], level['M'], nevents=2, targets='free', fix=job.get('fix'))
+    yield from cg.charts(job['skel'], level['M'], nevents=level.get('nevents', 2), targets='free',
+                         fix=job.get('fix'))
 
 
 def canary_job():
@@ -165,9 +187,17 @@ def harness(g, chart, level, canary=False):
         inst.log.append(('send', tag))
         return tag
 
+    nst = chart['N']
+
     def hook(kind, ident):
-        if kind == 'action' and ident == 0 and level.get('send'):
+        mode = level.get('send')
+        if kind == 'action' and ident == 0 and mode == 1:
             return "A(0)\nsend('b', tag=S())"
+        if mode == 2:      # sends from entry code of the last (deepest declared) state and of state 1
+            if kind == 'entry' and ident in (nst - 1, 1):
+                return "P('en', %d)\nsend('b', tag=S())" % ident
+            if kind == 'exit' and ident == nst - 2:
+                return "P('ex', %d)\nsend('c', tag=S())" % ident
         return None
     inst = Inst(g, chart, naming, code_hook=hook, extra_context={'S': S})
     cm, it = inst.cm, inst.it
